@@ -4,6 +4,7 @@ import (
 	"context"
 	"errors"
 	"fmt"
+	"log/slog"
 	"runtime"
 	"sort"
 	"strings"
@@ -329,6 +330,12 @@ func buildScriptWorld(rc *RunCtx, i int) (*scriptWorld, error) {
 		spec.Partition = "none"
 		spec.RGRows, spec.BufRows = 1<<30, core.Pick(r, []int{150, 300, 600})
 	}
+	if i%3 == 0 {
+		// a configured Logger whose handler takes its time (a real sink does): whatever the
+		// engine reports through it on a failure path sits between two steps of that path
+		w.Logger = slog.New(&slowLogHandler{rnd: r.Split("slowlog")})
+		rc.Res.Count("datasets_with_slow_logger", 1)
+	}
 	if _, err := w.AddEngine(spec); err != nil {
 		return nil, err
 	}
@@ -439,13 +446,15 @@ func buildScriptWorld(rc *RunCtx, i int) (*scriptWorld, error) {
 		}
 	}
 	sw.engs["started"] = w.Eng[0]
-	ns, err := bs.NewBloomSearchEngine(spec.Config(), w.IMeta, w.IData)
+	vcfg := spec.Config()
+	vcfg.Logger = w.Logger
+	ns, err := bs.NewBloomSearchEngine(vcfg, w.IMeta, w.IData)
 	if err != nil {
 		w.Close()
 		return nil, err
 	}
 	sw.engs["never-started"] = ns
-	st, _ := bs.NewBloomSearchEngine(spec.Config(), w.IMeta, w.IData)
+	st, _ := bs.NewBloomSearchEngine(vcfg, w.IMeta, w.IData)
 	st.Start()
 	sctx, cancel := context.WithTimeout(context.Background(), core.Patience)
 	st.Stop(sctx)
@@ -500,7 +509,21 @@ func runScripts(rc *RunCtx, i int, forProp string) {
 				sc.Faults = append(sc.Faults, faultSpec{Kind: kind, N: r.Range(0, 12)})
 			}
 		}
-		bigFault := sw.bigRegion && r.Chance(0.6)
+		if r.Chance(0.12) {
+			// the MetaStore iteration itself fails - at its start, at its first yield or after a
+			// few files - in a query that is otherwise left to run to the end: the failure is the
+			// last thing the pipeline learns, and Err must still carry it
+			sc.Faults = []faultSpec{{Kind: core.Pick(r, []string{"Iter", "IterYield", "IterYield"}), N: core.Pick(r, []int{0, 0, 0, 1, 3})}}
+			if sc.Faults[0].Kind == "Iter" {
+				sc.Faults[0].N = 0
+			}
+			sc.Steps = []scriptStep{{Op: "drain"}}
+			if r.Bool() {
+				sc.Steps = []scriptStep{{Op: "pause", N: r.Range(1, 8)}, {Op: "drain"}}
+			}
+			rc.Res.Count("scripts_iterator_failure_run_to_end", 1)
+		}
+		bigFault := sw.bigRegion && len(sc.Faults) == 0 && r.Chance(0.6)
 		if bigFault {
 			// a read failure in the middle of the multi-chunk filter pass of the big file (its
 			// second, third, ... read), query left to run to the end
@@ -919,3 +942,28 @@ func scheduleSig(calls []stores.Call) string {
 	}
 	return sb.String()
 }
+
+// slowLogHandler is a slog.Handler that discards records but takes 0.2-3 ms over every second
+// one (and yields on the others), like a sink that writes somewhere.
+type slowLogHandler struct {
+	mu  sync.Mutex
+	rnd *core.Rand
+}
+
+func (h *slowLogHandler) Enabled(context.Context, slog.Level) bool { return true }
+func (h *slowLogHandler) Handle(context.Context, slog.Record) error {
+	h.mu.Lock()
+	d := 0
+	if h.rnd.Bool() {
+		d = h.rnd.Range(200, 3000)
+	}
+	h.mu.Unlock()
+	if d > 0 {
+		time.Sleep(time.Duration(d) * time.Microsecond)
+	} else {
+		runtime.Gosched()
+	}
+	return nil
+}
+func (h *slowLogHandler) WithAttrs([]slog.Attr) slog.Handler { return h }
+func (h *slowLogHandler) WithGroup(string) slog.Handler      { return h }
